@@ -30,6 +30,25 @@ def toDecoded (h : Header) : Res → Option (Except DecErr Decoded)
   | .raise (.exc .zlibError _ _) _ _ => some (.error .zlib)
   | _ => none
 
+/-- running `ReceivingMessage.__init__(header)` (payload = None) -/
+def runInit (cfg : PyIR.Cfg) (body : Stmt) (header : Bytes) : Res :=
+  exec cfg body 1 none [("p1", .bytes header), ("p2", .none)] ⟨[], [], [], []⟩
+
+/-- the fields `__init__` leaves on the message object / the error it raises -/
+def toHeader : Res → Option (Except DecErr Header)
+  | .normal env _ =>
+    match env.lookup "self.type", env.lookup "self.serializer_id", env.lookup "self.flags", env.lookup "self.seq",
+          env.lookup "self.data_size", env.lookup "self.annotations_size", env.lookup "self.corr_id" with
+    | some (.int t), some (.int s), some (.int f), some (.int q), some (.int d), some (.int a), some (.bytes c) =>
+      some (.ok { type := t.toNat, serId := s.toNat, flags := f.toNat, seq := q.toNat, dataSize := d.toNat, annSize := a.toNat, corr := c })
+    | _, _, _, _, _, _, _ => none
+  | .raise (.exc .protocolError _ _) _ _ => some (.error .protocol)
+  | _ => none
+
+/-- running `ReceivingMessage.validate(data)` -/
+def runValidate (cfg : PyIR.Cfg) (body : Stmt) (data : Bytes) : Res :=
+  exec cfg body 1 none [("p0", .bytes data)] ⟨[], [], [], []⟩
+
 def sameOutcome : Option (Except DecErr Decoded) → Except DecErr Decoded → Bool
   | some (.ok a), .ok b => a == b
   | some (.error a), .error b => a == b
